@@ -6,6 +6,7 @@
 
 #include "fiber_scheduler.h"
 #include "work_stealing_deque.h"
+#include "fiber_verif.h"
 
 typedef struct fiber_scheduler_wsd {
   wsd_work_stealing_deque_t* queue_one;
@@ -88,8 +89,10 @@ void fiber_scheduler_schedule(fiber_scheduler_t* scheduler,
                               fiber_t* the_fiber) {
   assert(scheduler);
   assert(the_fiber);
+  FIBER_VERIF_POINT(FV_SCHEDULE, scheduler, the_fiber);
   wsd_work_stealing_deque_push_bottom(
       ((fiber_scheduler_wsd_t*)scheduler)->schedule_from, the_fiber);
+  FIBER_VERIF_POINT(FV_SCHEDULED, scheduler, the_fiber);
 }
 
 fiber_t* fiber_scheduler_next(fiber_scheduler_t* sched) {
@@ -99,6 +102,7 @@ fiber_t* fiber_scheduler_next(fiber_scheduler_t* sched) {
     wsd_work_stealing_deque_t* const temp = scheduler->schedule_from;
     scheduler->schedule_from = scheduler->store_to;
     scheduler->store_to = temp;
+    FIBER_VERIF_POINT(FV_SCHED_SWAP, scheduler, 0);
   }
 
   while (wsd_work_stealing_deque_size(scheduler->schedule_from) > 0) {
@@ -106,6 +110,7 @@ fiber_t* fiber_scheduler_next(fiber_scheduler_t* sched) {
         (fiber_t*)wsd_work_stealing_deque_pop_bottom(scheduler->schedule_from);
     if (new_fiber != WSD_EMPTY && new_fiber != WSD_ABORT) {
       if (new_fiber->state == FIBER_STATE_SAVING_STATE_TO_WAIT) {
+        FIBER_VERIF_POINT(FV_SAVING_SKIP, scheduler, new_fiber);
         wsd_work_stealing_deque_push_bottom(scheduler->store_to, new_fiber);
       } else {
         return new_fiber;
@@ -139,6 +144,7 @@ void fiber_scheduler_load_balance(fiber_scheduler_t* sched) {
         ++scheduler->failed_steal_count;
         break;
       }
+      FIBER_VERIF_POINT(FV_STEAL, scheduler, stolen);
       wsd_work_stealing_deque_push_bottom(scheduler->schedule_from, stolen);
       --remote_count;
       ++local_count;
@@ -155,3 +161,20 @@ void fiber_scheduler_stats(fiber_scheduler_t* sched, uint64_t* steal_count,
   *steal_count += scheduler->steal_count;
   *failed_steal_count += scheduler->failed_steal_count;
 }
+
+#ifdef FIBER_VERIF
+long fiber_verif_runqueue_total(void) {
+  long total = 0;
+  size_t i;
+  if (!fiber_scheduler_thread_queues) {
+    return 0;
+  }
+  for (i = 0; i < 2 * fiber_scheduler_num_threads; ++i) {
+    if (fiber_scheduler_thread_queues[i]) {
+      total += (long)wsd_work_stealing_deque_size(
+          fiber_scheduler_thread_queues[i]);
+    }
+  }
+  return total;
+}
+#endif
